@@ -66,12 +66,12 @@ _PACK_ASSUME = _FS_ASSUME + [
 PROPS = {
     "C02": {
         "streams": ["pack", "unpack"],
-        "theorems": "C02_round_trip (for every tree of regular files, directories and symbolic links that stay inside - relative, non-empty, never climbing above the top of the tree when read from their own directory; dangling, chained and up-and-down links included - of any depth and width, every file system, destination, option set without ignore processing: Pack succeeds and Unpack of its output into an empty directory yields exactly the tree, link targets unchanged, times rounded to the second; by induction over the tree on both models, Slug/RoundTrip.v + Slug/RoundTripPack.v), C02_link_check_is_root_independent (such a link passes validSymlink under every root, which is why Pack and Unpack agree), C02_rounding, C02_round_trip_instance; for all trees: C05_no_leak_without_dereference, C20_meta_describes_slug, C01_unpack_outside_unchanged",
+        "theorems": "C02_round_trip (for every tree of regular files, directories, special files (fifos, sockets, devices: left out at every level: the only omissions) and symbolic links that stay inside - relative, non-empty, never climbing above the top of the tree when read from their own directory; dangling, chained and up-and-down links included - of any depth and width, every file system, destination, option set without ignore processing: Pack succeeds and Unpack of its output into an empty directory yields exactly the tree, link targets unchanged, times rounded to the second; by induction over the tree on both models, Slug/RoundTrip.v + Slug/RoundTripPack.v), C02_link_check_is_root_independent (such a link passes validSymlink under every root, which is why Pack and Unpack agree), C02_rounding, C02_round_trip_instance; for all trees: C05_no_leak_without_dereference, C20_meta_describes_slug, C01_unpack_outside_unchanged",
         "assumptions": _PACK_ASSUME + ["partial: the theorem's hypotheses leave out trees whose links leave the tree and re-enter it by naming its directory, absolute links into the tree, ignore processing and allow-listed external links; those are decided per run by (i) correspondence of the Pack model and of the Unpack model with the implementation and (ii) packing, unpacking and comparing trees on the implementation (oracle)"],
     },
     "C05": {
         "streams": ["pack"],
-        "theorems": "C05_no_leak_without_dereference (all trees, options, spellings), C05_archive_position_refuted (witness of known finding KF-C05-1 for links inside dereferenced directories)",
+        "theorems": "C05_entries_accounted_for (with or without dereferencing: every regular-file entry carries the content of a regular file that exists in the file system at or below something Lstat reaches, and whatever is stored as a link passed the containment decision against the source directory - lexically inside or allow-listed), C05_no_leak_without_dereference (all trees, options, spellings), C05_archive_position_refuted (witness of known finding KF-C05-1 for links inside dereferenced directories)",
         "assumptions": _PACK_ASSUME,
     },
     "C12": {
@@ -86,7 +86,7 @@ PROPS = {
     },
     "C19": {
         "streams": ["ignore", "pack", "unpack", "resolve", "addr", "manifest", "prepare"],
-        "theorems": "C19_rule_file_never_panics (all rule files), C19_pack_terminates_without_dereference (fuel = height of the tree, all trees), total structurally-terminating path resolution; with dereferencing: concrete hazards terminate (Example) and every run is under a watchdog",
+        "theorems": "C19_unpack_never_panics (every entry list, file system, destination: the model's result is ok / illegal / error, its panic branch is never taken), C19_rule_file_never_panics (all rule files), C19_pack_terminates_without_dereference (fuel = height of the tree, all trees), total structurally-terminating path resolution; with dereferencing: concrete hazards terminate (Example) and every run is under a watchdog",
         "assumptions": _PACK_ASSUME + ["partial: panics and loops inside net/url, regexp, archive/tar, encoding/json are outside the model; address parsers and manifest loading are exercised by watched runs (resolve/bundle streams), termination of dereferencing Pack in general is observed (20 s watchdog), not proved"],
     },
     "C20": {
@@ -106,7 +106,7 @@ PROPS = {
     },
     "C15": {
         "streams": ["unpack"],
-        "theorems": "C15_tree_archive_materialised (every archive listing a tree of regular files, directories and links that stay inside, unpacked into an empty directory, yields exactly that tree: contents, permissions, times, link targets; directory metadata applied after the contents), C15_last_file_entry_wins, C15_last_of_many_file_entries (a regular-file entry whose path already holds a regular file of any content, permissions - also read-only or none - and time, under either privilege, leaves exactly its own content, permissions and time there; so of any number of entries for one file path the last one decides; Slug/LastWins.v), C15_unsupported_fails, C15_success_means_all_supported (all entry lists); for arbitrary entry orders, repeats and links the sequential-reading semantics is the executable model itself, compared with the implementation (whole final tree) and with an independent Go reference interpreter; C15_sequential_reading is a concrete instance with repeats",
+        "theorems": "C15_tree_archive_materialised (every archive listing a tree of regular files, directories and links that stay inside, unpacked into an empty directory, yields exactly that tree: contents, permissions, times, link targets; directory metadata applied after the contents), C15_directory_entry_for_existing_directory, C15_last_directory_entry_wins (a directory entry for a path that already is a directory - children first, or the same path again - changes nothing then and queues its metadata; of the queued restores of one path the last decides, contents untouched), C15_last_file_entry_wins, C15_last_of_many_file_entries (a regular-file entry whose path already holds a regular file of any content, permissions - also read-only or none - and time, under either privilege, leaves exactly its own content, permissions and time there; so of any number of entries for one file path the last one decides; Slug/LastWins.v), C15_unsupported_fails, C15_success_means_all_supported (all entry lists); for arbitrary entry orders, repeats and links the sequential-reading semantics is the executable model itself, compared with the implementation (whole final tree) and with an independent Go reference interpreter; C15_sequential_reading is a concrete instance with repeats",
         "assumptions": _FS_ASSUME + ["partial: for archives with repeated paths, children before parents, or links that leave and re-enter, 'the model's unpack equals a declarative last-writer-wins tree' is not proved as a theorem; it is checked per run by the reference interpreter on the implementation"],
     },
     "C03": {
@@ -143,7 +143,7 @@ PROPS = {
     },
     "C06": {
         "streams": ["addr", "resolve"],
-        "theorems": "C06_local_round_trip, C06_local_resolve_canonical (all strings / all pairs of local values); C06_registry_round_trip, C06_registry_package_round_trip (every well-formed registry package value and every valid sub-path without '?': parse (print v) = v; well-formedness is evaluated on every registry value the parsers return in a run); C06_final_registry_round_trip (with C06_version_round_trip, C06_decimal_round_trip), C06_remote_round_trip (every remote value whose host, path and sub-path URL escaping leaves alone, via C06_parse_remote_structured and a model of net/url); C06_same_kind_local / _registry / _final_registry / _remote (the general parsers ParseSource and ParseFinalSource send a printed address back to its own kind: printed registry text never has local form; C06_registry_parser_refuses_remote_text: the registry parser refuses every structured remote text; for ParseFinalSource on remote text PARTIAL: without '@'; leading/trailing white space is refused by the general parsers only, hence a hypothesis); refutation witnesses for the five known mechanisms (KF-C06-1..5), which are exactly the shapes outside the theorems' hypotheses",
+        "theorems": "C06_local_round_trip, C06_local_resolve_canonical (all strings / all pairs of local values); C06_registry_round_trip, C06_registry_package_round_trip (every well-formed registry package value and every valid sub-path without '?': parse (print v) = v; well-formedness is evaluated on every registry value the parsers return in a run); C06_final_registry_round_trip (with C06_version_round_trip, C06_decimal_round_trip), C06_remote_round_trip (every remote value whose host, path and sub-path URL escaping leaves alone, via C06_parse_remote_structured and a model of net/url); C06_same_kind_local / _registry / _final_registry / _remote (the general parsers ParseSource and ParseFinalSource send a printed address back to its own kind: printed registry text never has local form; C06_registry_parser_refuses_remote_text: the registry parser refuses every text that begins with a lower-case type::scheme://, whatever follows, which also covers the text ParseFinalSource cuts off before an '@'; leading/trailing white space is refused by the general parsers only, hence a hypothesis); C06_equal_iff_same_print_registry / _final_registry / _remote (printing is injective on the values the round-trip theorems cover: two addresses are equal exactly when they print the same); refutation witnesses for the five known mechanisms (KF-C06-1..5), which are exactly the shapes outside the theorems' hypotheses",
         "assumptions": _ADDR_ASSUME + ["derived values (ResolveRelative*, Versioned, SourceAddr, FinalSourceAddr) are printed, re-parsed and compared on the implementation by the addr stream's oracle"],
     },
     "C07": {
@@ -152,7 +152,7 @@ PROPS = {
         "assumptions": _ADDR_ASSUME + ["the converse direction is proved for the three documented shapes with explicit parts (any letter case) and for the shorthand with plain names (characters URL escaping leaves alone); addresses outside those shapes (escapes in the path, unusual query arguments) are covered by the per-run grammar generator with its must-accept oracle"],
     },
     "C18": {
-        "streams": ["manifest"],
+        "streams": ["manifest", "reopen"],
         "theorems": "C18_opened_bundle_directories, C18_bad_directory_refused (every manifest document), C18_remote_lookup_inside, C18_registry_lookup_inside (every address), C18_reverse_inverts_forward, C18_reverse_only_inside, C18_outside_not_in_bundle (every path, every set of aliases sharing a directory)",
         "assumptions": _ADDR_ASSUME + ["modelled, not verified: encoding/json decoding of the manifest (the model starts at the decoded document; raw JSON mutations are run against the implementation with the direct oracle only), os.ReadFile, filepath.Abs/Rel/Join/Clean on absolute Unix paths (Bundle/Lookup.v comps / join3, on Base/PathAlg.v), Go map iteration order (the reverse lookup's choice among equally short aliases is compared as membership in the model's candidate set); two manifest version keys that parse to the same version are not generated for the model (map-order dependent)"],
     },
